@@ -105,7 +105,10 @@ def run_continuum(case, mesh):
     from EasyFEA import Models, Simulations
     p = case["params"]
     dim = mesh.dim
-    res = {"Nn": int(mesh.Nn), "Ne": int(mesh.Ne), "dim": int(dim), "measure": measure_of(mesh)}
+    from EasyFEA.FEM._utils import MatrixType
+    res = {"Nn": int(mesh.Nn), "Ne": int(mesh.Ne), "dim": int(dim), "measure": measure_of(mesh),
+           "measure_rigi": float(sum(np.asarray(g.Get_weightedJacobian_e_pg(MatrixType.rigi)).sum() for g in mesh.Get_list_groupElem())),
+           "wJ_mass_sum": float(sum(np.asarray(g.Get_weightedJacobian_e_pg(MatrixType.mass)).sum() for g in mesh.Get_list_groupElem()))}
     rs = np.random.RandomState(case.get("field_seed", 0))
     X = np.asarray(mesh.coord, dtype=float)[:, :dim]
     if case["phys"] == "elastic":
